@@ -208,6 +208,23 @@ def run(rep, tier, seed, model_ok=True, effort=1):
         finally:
             for prj in projs:
                 prj.__exit__(None, None, None)
+    # under an ASCII process locale: when --dry exits 0 the real run does too and writes what the diff said (v2 and legacy engines,
+    # non-ASCII text in the files)
+    env = {"LC_ALL": "C", "LANG": "C", "PYTHONUTF8": "0", "PYTHONCOERCECLOCALE": "0", "PYTHONIOENCODING": "utf-8"}
+    for vp, cur, args_ in (("MAJOR.MINOR.PATCH", "1.2.3", ["--patch"]), ("{semver}", "1.2.3", ["--patch"]), ("{pycalver}", "v202001.0042-beta", ["--date", "2020-03-01"])):
+        content = "# Caf\u00e9 M\u00fcnch \u2713\nver = %s\n" % cur
+        prj = project.TempProject(vp, cur, files={"a.txt": ["ver = {version}"]}, contents={"a.txt": content})
+        with prj:
+            c_dry, o_dry, e_dry = prj.run_subprocess(["update", "--no-fetch", "--dry"] + args_, env_extra=env)
+            mid = prj.snapshot()
+            c_real, o_real, e_real = prj.run_subprocess(["update", "--no-fetch"] + args_, env_extra=env)
+            after = prj.snapshot()
+        rep.case(("ascii-locale", vp), nontrivial=c_dry == 0)
+        inp = dict(version_pattern=vp, current_version=cur, locale="LC_ALL=C, UTF-8 mode off", dry_exit=c_dry, real_exit=c_real, stderr=e_real.decode("utf-8", "replace")[-300:])
+        if c_dry == 0 and c_real != 0:
+            rep.violation("--dry exits 0 but the real run fails", input=inp, **{"class": "dry-ok-real-fails"})
+        elif c_dry == 0 and not after.get("a.txt", b"").startswith("# Caf\u00e9 M\u00fcnch \u2713\n".encode("utf-8")):
+            rep.violation("the real run changed bytes the --dry diff did not announce", input=inp, **{"class": "dry-real-differ"})
     if model_ok and items:
         rwcheck.eval_rfd(rep, items, meta)
 
